@@ -46,6 +46,11 @@ def rng_state(g):
     return (s['state']['state'], s['state']['inc'], s.get('has_uint32'), s.get('uinteger'))
 
 
+def same_stream(a, b):
+    """two Generator objects that draw from one stream: the same object, or wrappers of one BitGenerator"""
+    return a is b or a.bit_generator is b.bit_generator
+
+
 def classes(seq):
     """first-occurrence labels of a sequence of hashables"""
     seen = {}
@@ -82,7 +87,11 @@ def make_layer(case, cn2=None, grid=None, vel=None, L0=None):
     l0 = case['L0'] if L0 is None else L0
     seed = case['seed']
     gen = None
-    if case.get('seedobj'):
+    if case.get('seedobj') == 'bitgen':
+        # the caller passes a BitGenerator and keeps drawing from it through its own Generator
+        seed = np.random.PCG64(case['seed'])
+        gen = np.random.Generator(seed)
+    elif case.get('seedobj'):
         # the caller passes a Generator object and keeps it (ops ['cdraw', n] draw from it)
         seed = gen = np.random.default_rng(case['seed'])
     if case['kind'] == 'finite':
@@ -90,7 +99,7 @@ def make_layer(case, cn2=None, grid=None, vel=None, L0=None):
     else:
         layer = hcipy.InfiniteAtmosphericLayer(g, c, l0, v, use_interpolation=bool(case['interp']), seed=seed)
     layer._verif_gen = gen
-    layer._verif_shared = gen is not None and layer._original_rng is gen
+    layer._verif_shared = gen is not None and same_stream(layer._original_rng, gen)
     return layer
 
 
@@ -193,8 +202,8 @@ def run_layer(case, layer, k=1.0):
         gen = getattr(layer, '_verif_gen', None)
         o['caller'] = rng_state(gen) if gen is not None else None
         o['shared'] = bool(getattr(layer, '_verif_shared', False))
-        o['al'] = '%d%d%d' % (layer.rng is layer._original_rng, gen is not None and layer._original_rng is gen,
-                              gen is not None and layer.rng is gen)
+        o['al'] = '%d%d%d' % (same_stream(layer.rng, layer._original_rng), gen is not None and same_stream(layer._original_rng, gen),
+                              gen is not None and same_stream(layer.rng, gen))
         if case['kind'] == 'finite':
             o['noise'] = layer._verif_noise
             o['draws'] = layer._verif_draws
@@ -890,7 +899,7 @@ def decorate(rng, case, live=True):
     if case['kind'] == 'infinite' and case['nx'] * case['ny'] <= 120 and rng.random() < 0.3:
         case['ar'] = True        # the first three extrusions are re-computed by the model from the real A, B, stencil, normals
     if case['heap'] and rng.random() < 0.45:
-        case['seedobj'] = True
+        case['seedobj'] = 'bitgen' if case['seed'] % 3 == 0 else True
         resets = [i for i, op in enumerate(ops) if op[0] == 'reset']
         for _ in range(int(rng.integers(1, 4))):
             # mostly just before a reset (where a shared generator shows), else anywhere
@@ -1154,6 +1163,10 @@ DIRECTED = [
                                                 ['reset', False], ['evolve', 2.0], ['read', 1.0]]), heap=True, seedobj=True),
     dict(_layer('infinite', 5, 7, [0.0, -0.25], [['evolve', 2.0], ['read', 1.0], ['reset', False], ['evolve', 2.0], ['read', 1.0]]), heap=True, ar=True),
     _layer('infinite', 5, 6, [0.25, -0.25], [['evolve', 2.0], ['read', 1.0], ['reset', False, 'none'], ['read', 1.0], ['evolve', 2.0], ['read', 1.0]]),
+    dict(_layer('infinite', 5, 5, [0.25, 0.0], [['read', 1.0], ['cdraw', 2], ['evolve', 1.0], ['read', 1.0], ['cdraw', 1], ['reset', False], ['read', 1.0],
+                                                ['evolve', 1.0], ['read', 1.0]]), heap=True, seedobj='bitgen'),
+    dict(_layer('finite', 5, 6, [0.0, 0.25], [['read', 1.0], ['cdraw', 2], ['reset', False], ['read', 1.0], ['setcn2', 2.0 ** -40], ['cdraw', 1], ['read', 1.0],
+                                              ['evolve', 1.0], ['read', 1.0]]), heap=True, seedobj='bitgen'),
     # parameter changes on the running infinite layer
     dict(_layer('infinite', 7, 5, [0.25, 0.0], [['evolve', 1.0], ['read', 1.0], ['setcn2', 2.0 ** -38], ['read', 1.0], ['evolve', 3.0], ['read', 1.0],
                                                 ['setl0', 4.0, 'outer_scale'], ['evolve', 4.0], ['read', 0.5], ['reset', False], ['evolve', 1.0], ['read', 1.0]], k=2.0), ar=True),
@@ -1209,7 +1222,7 @@ def handle(ctx, case, batch):
             ctx.count('%s:late small steps' % case['kind'], sum(1 for op in case['ops'] if op[0] == 'evolve') - 1)
         ctx.count('%s:model %s' % (case['kind'], 'heap (hfin/hinf)' if case.get('heap') else 'value (fin/inf)'))
         if case.get('seedobj'):
-            ctx.count('%s:seed is a Generator object' % case['kind'])
+            ctx.count('%s:seed is a %s object' % (case['kind'], 'BitGenerator' if case['seedobj'] == 'bitgen' else 'Generator'))
             ctx.count('%s:caller draws' % case['kind'], sum(1 for op in case['ops'] if op[0] == 'cdraw'))
         ctx.count('%s:parameter setters' % case['kind'], sum(1 for op in case['ops'] if op[0] in SET_OPS))
         if case.get('live'):
